@@ -163,6 +163,68 @@ thread_local! {
     static LAST_PANIC: std::cell::RefCell<String> = const { std::cell::RefCell::new(String::new()) };
 }
 
+/// The case a thread is executing in-process through code that can end in a *non-unwinding*
+/// panic (the standard library's checks of unsafe preconditions - `copy_nonoverlapping`,
+/// `from_raw_parts`, `unchecked_*` - under debug assertions, or a panic inside a destructor during
+/// unwinding).  Such a panic aborts the process, so `catch_unwind` never sees it; the panic hook
+/// turns it into the verdict of the armed case instead of an engine crash.
+pub struct FatalCase {
+    pub sweep: String,
+    pub payload: Option<String>,
+    pub site: String,
+    pub case: String,
+}
+thread_local! {
+    static FATAL: std::cell::RefCell<Option<FatalCase>> = const { std::cell::RefCell::new(None) };
+}
+thread_local! {
+    /// (sweep name, index + 1) of the case an in-process sweep thread is running (0 = none)
+    static CUR_SWEEP: std::cell::RefCell<String> = const { std::cell::RefCell::new(String::new()) };
+    static CUR_INDEX: std::cell::Cell<u64> = const { std::cell::Cell::new(0) };
+}
+static FATAL_INDEX: AtomicU64 = AtomicU64::new(0);
+static RUNINFO: Mutex<Option<(String, Tier, u64, String, bool)>> = Mutex::new(None);
+
+pub fn arm_fatal(c: FatalCase) {
+    let _ = FATAL.try_with(|f| *f.borrow_mut() = Some(c));
+}
+pub fn disarm_fatal() {
+    let _ = FATAL.try_with(|f| *f.borrow_mut() = None);
+}
+
+fn fatal_verdict(msg: &str) {
+    let mut armed = FATAL.try_with(|f| f.borrow_mut().take()).ok().flatten();
+    if armed.is_none() {
+        // not armed by the case itself: the sweep runner's own record of the running case
+        let idx = CUR_INDEX.try_with(|c| c.get()).unwrap_or(0);
+        let name = CUR_SWEEP.try_with(|c| c.borrow().clone()).unwrap_or_default();
+        if idx != 0 && !name.is_empty() {
+            armed = Some(FatalCase { sweep: name.clone(), payload: None, site: name.clone(), case: format!("sweep {} index {}", name, idx - 1) });
+            FATAL_INDEX.store(idx - 1, Ordering::Relaxed);
+        }
+    }
+    let info = RUNINFO.lock().ok().and_then(|g| g.clone());
+    let (Some(c), Some((prop, tier, seed, config, in_worker))) = (armed, info) else { return };
+    if in_worker {
+        return; // the parent of an isolated sweep reports the death of its child
+    }
+    let f = Finding {
+        sig: format!("{}|{}|non-unwinding-panic", prop, c.site),
+        sweep: c.sweep,
+        index: FATAL_INDEX.load(Ordering::Relaxed),
+        payload: c.payload,
+        case: trunc(&c.case, 1500),
+        observed: format!("process-aborting panic: {}", trunc(msg, 600)),
+        expected: "no violated unsafe precondition / no panic inside a destructor".into(),
+    };
+    let path = write_replay(&prop, tier, seed, &config, &f);
+    println!("VIOLATION property={} replay={}", prop, path);
+    println!("  signature: {}\n  case: {}\n  observed: {}", f.sig, f.case, f.observed);
+    eprintln!("non-unwinding panic in an in-process case; evidence not rewritten");
+    let _ = std::io::stdout().flush();
+    std::process::exit(1);
+}
+
 pub fn install_panic_hook() {
     std::panic::set_hook(Box::new(|info| {
         let msg = if let Some(s) = info.payload().downcast_ref::<&str>() {
@@ -174,6 +236,11 @@ pub fn install_panic_hook() {
         };
         let loc = info.location().map(|l| format!("{}:{}", l.file(), l.line())).unwrap_or_default();
         let _ = LAST_PANIC.try_with(|p| *p.borrow_mut() = format!("{} @ {}", msg, loc));
+        // `PanicHookInfo::can_unwind` is unstable; the non-unwinding panics of the standard library
+        // are recognised by their fixed messages
+        if msg.starts_with("unsafe precondition(s) violated") || msg.contains("panic in a destructor during cleanup") || msg.contains("panic in a function that cannot unwind") {
+            fatal_verdict(&format!("{} @ {}", msg, loc));
+        }
     }));
 }
 
@@ -254,6 +321,9 @@ impl Ctx {
         let threads = std::env::var("DV_THREADS").ok().and_then(|s| s.parse().ok()).unwrap_or_else(|| {
             std::thread::available_parallelism().map(|n| n.get()).unwrap_or(8).min(16)
         });
+        if let Ok(mut g) = RUNINFO.lock() {
+            *g = Some((prop.to_string(), tier, seed, config.clone(), matches!(mode, Mode::Worker { .. })));
+        }
         Ctx {
             prop,
             tier,
@@ -447,6 +517,7 @@ impl Ctx {
                     .spawn_scoped(s, move || {
                         let mut rec = Rec::new(name);
                         rec.sample_every = sample_every;
+                        CUR_SWEEP.with(|c| *c.borrow_mut() = name.to_string());
                         loop {
                             if stop.load(Ordering::Relaxed) {
                                 break;
@@ -460,6 +531,7 @@ impl Ctx {
                                 watch.cur[t].1.store(start.elapsed().as_millis() as u64, Ordering::Relaxed);
                                 watch.cur[t].0.store(i + 1, Ordering::Relaxed);
                                 rec.set_case(i, None);
+                                CUR_INDEX.with(|c| c.set(i + 1));
                                 if let Err(p) = guard(|| f(i, &mut rec)) {
                                     rec.fail(format!("{}|{}|escaped-panic|{}", prop, name, panic_class(&p)), format!("sweep {} index {}", name, i), p, "no panic outside documented preconditions");
                                 }
@@ -469,6 +541,7 @@ impl Ctx {
                                 }
                             }
                             watch.cur[t].0.store(0, Ordering::Relaxed);
+                            CUR_INDEX.with(|c| c.set(0));
                             done.fetch_add(hi - lo, Ordering::Relaxed);
                         }
                         watch.cur[t].0.store(0, Ordering::Relaxed);
